@@ -158,3 +158,105 @@ def c17(run):
                     run.violation("warn:missing-default", "-s given, input %s falls through to the default rule of %s, but flex did not warn" % (p, c.src.get("name")),
                                   dict(path=p, cfg=c.cfg), [c.gen["l"]])
     run.assumptions.append("for REJECT / variable trailing context rule sets only 'no false warning' is checked (as the property states)")
+
+
+def stack_scripts(rng, c, n=6):
+    """scripts that exercise the start-condition stack beyond its initial allocation (25)"""
+    nsc = len(c.src["scs"])
+    out = []
+    for _ in range(n):
+        ops = []
+        depth = rng.choice([3, 26, 27, 51])
+        for i in range(depth):
+            ops.append(("P", rng.randrange(nsc)))
+            if rng.random() < 0.2: ops.append(("Q", 0))
+        ops.append(("-", 0))
+        for i in range(depth):
+            ops.append(("O", 0))
+            if rng.random() < 0.3: ops.append(("Q", 0)); 
+            if rng.random() < 0.2: ops.append(("-", 0))
+        if rng.random() < 0.5: ops += [("X", 0)]      # one pop too many: must be the reported fatal error
+        ops.append(("-", 0))
+        out.append(ops)
+    return out
+
+
+@check("C05")
+def c05(run):
+    fd = build.build_flex()
+    rng = random.Random(run.seed)
+    q = run.tier == "quick"
+    srcs = fam(run, profiles=("sc", "sc3", "anch", "mix"), core=6 if q else 20, rnd=60)
+    # activation: all inputs, all (condition, bol) start states, rendered as prefixes and as scopes
+    cfgs = [{"tbl": "", "stack": True}, {"tbl": "", "scopes": True}, {"tbl": "-Cf"}, {"tbl": "", "reject": True}]
+    cases = units.product_unit(run, fd, srcs, cfgs, tag="product", san=True)
+    ok = [c for c in cases if c.status == "ok" and not c.cfg.get("scopes")]
+    units.trace_unit(run, ok, rng, per_case=10 if q else 40, tag="sctraces")
+    # deep stacks / underflow
+    deep = [c for c in ok if c.cfg.get("tbl") == "" and not c.cfg.get("reject")][:12 if q else 60]
+    scr = {}
+    def jf(c, job):
+        lst = scr.setdefault(c.id, stack_scripts(random.Random(run.seed + hash(c.id) % 1000), c))
+        job["ops"] = lst[len(job["input"]) % len(lst)]
+        if len(job["input"]) < 3: job["input"] = job["input"] + bytes(c.alphabet[:3])
+        return job
+    units.trace_unit(run, deep, rng, per_case=8, tag="deepstack", job_filter=jf)
+    run.assumptions.append("calls between yylex() calls and across yyrestart/buffer switches: see the buffer units of C10/C11")
+
+
+@check("C08")
+def c08(run):
+    fd = build.build_flex()
+    rng = random.Random(run.seed)
+    q = run.tier == "quick"
+    srcs = fam(run, profiles=("lit", "ops", "ccl", "dot", "nul", "trail", "mix"), core=3 if q else 10, rnd=40)
+    cfgs = []
+    for arr in (False, True):
+        for fl in ("nr", "r"):
+            cfgs.append({"flavour": fl, "array": arr, "yymore": True})
+    cfgs.append({"tbl": "-Cf", "yymore": True})
+    cases = units.product_unit(run, fd, srcs, cfgs, tag="product", san=True)
+    units.trace_unit(run, [c for c in cases if c.status == "ok"], rng, per_case=16 if q else 60, tag="edits",
+                     bufsizes=(0, 0, 1, 2, 3, 8, 16), scheds=[[1], [2, 1], [], [5]],
+                     script_modes=("random",), maxops=40)
+
+
+@check("C09")
+def c09(run):
+    fd = build.build_flex()
+    rng = random.Random(run.seed)
+    q = run.tier == "quick"
+    srcs = fam(run, profiles=("lit", "dot", "ccl", "posix", "setop", "grp", "ref", "trail", "anch", "mix"), core=2 if q else 10, rnd=30)
+    srcs += newline_forms()
+    cfgs = [{"yymore": True}, {"flavour": "r", "yymore": True}, {"reject": True, "interactive": False},
+            {"array": True, "yymore": True}, {"yylineno": "no"}, {"tbl": "-Cf"}]
+    cases = units.product_unit(run, fd, srcs, cfgs, tag="product", san=True)
+
+    def nl_inputs(c, rng, n):
+        base = units.cover_inputs(c, rng, n // 2)
+        al = c.alphabet + [10, 10, 10]
+        return base + [bytes(rng.choice(al) for _ in range(rng.randint(1, 14))) for _ in range(n - len(base))]
+    units.trace_unit(run, [c for c in cases if c.status == "ok"], rng, per_case=14 if q else 50, tag="lineno",
+                     inputs_fn=nl_inputs, bufsizes=(0, 0, 3, 8))
+
+
+def newline_forms():
+    """every way a rule can come to match a newline (C09's quantifier)"""
+    P = rulesets.P; c = P.chr_; R = rulesets.rule
+    nl = 10
+    forms = {
+        "literal": c(nl), "cesc": c(nl, "cesc"), "oct": c(nl, "oct"), "hex": c(nl, "hex"),
+        "string": P.str_([97, nl]), "class": P.ccl([P.cb(nl), P.cb(97)]), "negclass": P.ccl([P.cb(97)], neg=True),
+        "range": P.ccl([P.cr(9, 13)]), "posix": P.ccl([P.cp("space")]), "negposix": P.ccl([P.cnp("alpha")]),
+        "dotall": P.grp(P.dot(), s=1), "dotall-x": P.grp(P.cat(c(97), P.dot()), s=1, x=1),
+        "diff": P.diff(P.ccl([P.cb(97)], neg=True), P.ccl([P.cb(98)])), "union": P.union(P.ccl([P.cb(97)]), P.ccl([P.cb(nl)])),
+        "def": P.ref(1), "star": P.cat(c(97), P.star(c(nl))), "alt": P.alt(c(97), c(nl)), "rep": P.rep(P.ccl([P.cb(nl), P.cb(98)]), 1, 2),
+    }
+    out = []
+    for name, f in forms.items():
+        rules = [R(P.cat(c(120), f)), R(P.plus(P.ccl([P.cr(97, 122)])))]
+        out.append(rulesets.ruleset(rules, defs=[P.ccl([P.cb(nl), P.cb(121)])], name="nlform-" + name))
+    # trailing context holding the newline; '$'; newline in the head of r/s
+    out.append(rulesets.ruleset([R(c(97), P.cat(c(nl), c(98))), R(c(98)), R(P.cat(c(99), c(nl)), c(100)), R(c(100), dollar=True),
+                                 R(P.plus(c(101)), P.star(c(nl)) if False else P.plus(c(nl)))], name="nlform-trailing"))
+    return out
